@@ -19,7 +19,7 @@ RULE = ('case = (base triple: signer algorithm x signature kind x hash x produce
 ASSUMPTIONS = ['vf.ref.sig decides whether a mutant is semantic (validated on fixtures and against gpg in C02)', 'cryptography/OpenSSL primitives',
                'forgery across a 64-bit key-id collision is not attempted']
 MIN_COUNTERS = {'quick': {'semantic_mutants': 20000, 'baseline_true': 60, 'sig_bitflips': 10000, 'subject_mutants': 2000, 'key_mutants': 300,
-                          'wrong_verifier': 20, 'type_confusion': 200, 'carrier_mutants': 2000},
+                          'wrong_verifier': 20, 'type_confusion': 200, 'carrier_mutants': 2000, 'message_content_edits': 300},
                 'thorough': {'semantic_mutants': 100000, 'baseline_true': 200}}
 BUDGET = {'quick': (600, 1500), 'thorough': (1800, 3600)}
 TECHNIQUE = 'runtime monitoring: data-fault injection (bit flips, edits, type confusion, wrong verifier) with an independent-verifier oracle that filters equivalent mutants'
@@ -581,4 +581,62 @@ def _msgcarrier(ctx, d, pgpy):
         except Exception:
             res = 'error:load'
         judge(ctx, klass, res, 'message-carrier-bit-flip', d, {'bit': b})
+    if d['part'] == 0:
+        _msg_content_edits(ctx, d, pgpy, k, sm, pub)
     ctx.nontrivial(d)
+
+
+def _msg_content_edits(ctx, d, pgpy, k, sm, pub):
+    """the literal of a signed message replaced by octets that a lenient reader might identify with the signed ones: transcodings,
+    Unicode normal forms, line-ending and blank edits, BOM, case -- for every literal format; the signature packet stays as it is"""
+    import unicodedata
+    from pgpy.constants import CompressionAlgorithm
+    text = 'Zahlung 10 \u20ac an Zo\u00eb M\u00fcller \u212b\r\nzweite Zeile \t \nCafe\u0301 Ame\u0301lie\n'
+    bases = [('u', text), ('t', text), ('b', text.encode('utf-8')), ('u', 'plain ascii\r\nlines \n'), ('b', b'\x00\xff\xfe binary \r\n'), ('t', 'latin \u00e9\u00fc only\n')]
+    for fmt, content in bases:
+        try:
+            m = pgpy.PGPMessage.new(content, compression=CompressionAlgorithm.Uncompressed, format=fmt)
+            m |= k.sign(m)
+        except Exception:
+            ctx.observe('message_base_not_constructible:' + fmt)
+            continue
+        pk = wire.split(bytes(m))
+        lit = [p for p in pk if p.tag == 11][0]
+        sg = [p for p in pk if p.tag == 2][0]
+        f = grammar.literal_fields(lit.body)
+        data = f['data']
+        if ref_verdict(sg.raw, sm, {'doc': data}) != 'valid' or sigwork.pgpy_verify(pub, pgpy.PGPMessage.from_blob(bytes(m)))[0] != 'true':
+            ctx.count('baseline_false')
+            continue
+        ctx.count('baseline_true')
+        try:
+            t = data.decode('utf-8')
+        except UnicodeDecodeError:
+            t = None
+        edits = [('trailing-newline-dropped', data.rstrip(b'\n')), ('newline-added', data + b'\n'), ('crlf-to-lf', data.replace(b'\r\n', b'\n')), ('lf-to-crlf', data.replace(b'\r\n', b'\n').replace(b'\n', b'\r\n')),
+                 ('trailing-blanks-dropped', b'\n'.join(x.rstrip(b' \t') for x in data.split(b'\n'))), ('bom-prefixed', b'\xef\xbb\xbf' + data), ('nul-appended', data + b'\x00'),
+                 ('upper', data.upper()), ('one-octet-shorter', data[:-1]), ('empty', b'')]
+        if t is not None:
+            for name, enc in (('latin-1', 'latin-1'), ('cp1252', 'cp1252'), ('utf-16', 'utf-16-le'), ('ascii-dropped', 'ascii')):
+                try:
+                    edits.append(('transcoded-' + name, t.encode(enc, 'ignore' if enc == 'ascii' else 'strict')))
+                except UnicodeEncodeError:
+                    edits.append(('transcoded-' + name + '-lossy', t.encode(enc, 'replace')))
+            for form in ('NFC', 'NFD', 'NFKC', 'NFKD'):
+                edits.append(('normalised-' + form, unicodedata.normalize(form, t).encode('utf-8')))
+            edits.append(('casefold', t.casefold().encode('utf-8')))
+        for name, nd in edits:
+            for nfmt in {fmt.encode(), b'u', b'b'}:
+                body = nfmt + lit.body[1:len(lit.body) - len(data)] + nd
+                blob = b''.join(p.raw for p in pk if p.tag == 4) + wire.new_hdr(11, len(body)) + body + sg.raw
+                klass = ref_verdict(sg.raw, sm, {'doc': nd})
+                ctx.count('carrier_mutants')
+                ctx.count('message_content_edits')
+                try:
+                    with time_limit(10):
+                        res, _ = sigwork.pgpy_verify(pub, pgpy.PGPMessage.from_blob(blob))
+                except Stalled:
+                    res = 'error:stalled'
+                except Exception:
+                    res = 'error:load'
+                judge(ctx, klass, res, 'message-content-' + name, d, {'signed_format': fmt, 'presented_format': nfmt.decode(), 'presented': hx(nd)[:120]})
